@@ -1,12 +1,17 @@
 import Percival.Driver.Netbuf
 import Percival.Driver.Netbufmon
+import Percival.Proofs.NetbufAns
 /-!
-# `Out.ans` is print ∘ cut ∘ parse (labelled tests, C07)
+# The cut of a printed line into tokens (labelled tests, C07)
 
-`Model.NetbufStep.Out.ans` — the answer `C07.monitor_accepts_model` feeds to the monitor — is the typed form of:
-print the model's output with `Driver/Netbuf.render`, keep the part before ` | `, cut it into tokens as
-`Driver/Loop.loopMon` does, read them with `Driver/Netbufmon.parseAns`.  String functions do not reduce in the
-kernel, so this is checked by evaluation (`#guard`, at every build) on an output of every shape rather than proved.
+`C07.monitor_reads_printed_answer` proves, for every output `o` with printable records and canonical shown byte
+strings, that `Driver/Netbufmon.parseAns (Driver/Netbuf.l1Toks o) = Out.ans o`, that `render o` is these tokens joined
+by single spaces followed by ` | ` and the L2 part, and that cutting the L1 part with `String.split ' '` gives the
+tokens back.  What is NOT proved is that the cut `Driver/Loop.loopMon` really makes (`trimAscii`, the legacy
+`String.splitOn " "`, dropping empty tokens) and the cut at ` | ` (`tools/vlib.py`; `splitOn " | "` here) give the same
+tokens: that is checked here by evaluation (`#guard`, at every build) on an output of every shape
+(`cutAgrees`, and `loopCutOk`, the hypothesis of `C07.monitor_reads_loop_line_partial`), together with the end-to-end
+equation `parseAns (cut (render o)) = Out.ans o` (`agrees`).
 -/
 namespace Percival.KAT.NetbufAns
 open Percival.Model Percival.Model.NetbufStep Percival.Spec.NetbufMon Percival.Driver
@@ -16,6 +21,10 @@ def l1toks (o : Out) : List String :=
   ((((Netbuf.render o).splitOn " | ").headD "").splitOn " ").filter (· ≠ "")
 
 def agrees (o : Out) : Bool := Netbufmon.parseAns (l1toks o) == o.ans
+
+/-- the cut of the loop gives the tokens `render` was built from (the part the theorems do not cover) -/
+def cutAgrees (o : Out) : Bool :=
+  l1toks o == Netbuf.l1Toks o && Netbufmon.splitCh ' ' (" ".intercalate (Netbuf.l1Toks o)) == l1toks o
 
 def r : NetbufRead.R := { NetbufRead.init with bufpos := 3, datalen := 9, waitlen := 7, pending := .read }
 def w : NetbufWrite.W := { NetbufWrite.init with queue := [{ buf := [1, 2], buflen := 2, datalen := 1 }], failed := true }
@@ -27,12 +36,26 @@ def long : List UInt8 := (List.range 70).map UInt8.ofNat
 #guard [Out.spin [] 0 0 .none 0 r w,
         .spin [.succ 5 (some (.hex [1, 2])), .succ 3 (some .none), .status 1, .status (-1)] 1 2 (.hex [7, 8]) 2 r w,
         .spin [.succ 70 (some (shownOf long 70))] 0 70 (shownOf long 70) 3 r w].all agrees
--- the one shape on which they differ: a record whose bytes the model could not read from its own buffer is printed
+#guard [Out.badOp, .contract, .ok, .okR r, .okW w, .okN 0 r, .okN 17 r, .failed .oob, .failed .abort,
+        .failed .contract, .failed .fuel, .peek 0 .none r, .peek 3 (.hex [1, 2, 255]) r,
+        .peek 70 (shownOf long 70) r, .peek 0 (.hex []) r,
+        .spin [] 0 0 .none 0 r w, .spin [.succ 4 none] 0 0 .none 0 r w,
+        .spin [.succ 5 (some (.hex [1, 2])), .succ 3 (some .none), .status 1, .status (-1)] 1 2 (.hex [7, 8]) 2 r w,
+        .spin [.succ 70 (some (shownOf long 70))] 0 70 (shownOf long 70) 3 r w].all
+    fun o => cutAgrees o && Proofs.NetbufAns.loopCutOk o
+-- the shapes on which `parseAns ∘ cut ∘ render` and `Out.ans` differ (the hypotheses of
+-- `C07.monitor_reads_printed_answer`): a record whose bytes the model could not read from its own buffer is printed
 -- `0:<a>:model-oob`, which the monitor cannot read (`other`: rejected), while `Out.ans` shows it as `succ a none`.
 -- `C07.exec_records_readable`: no output of `pmodel netbuf` on any protocol run contains such a record.
 #guard Netbufmon.parseAns (l1toks (.spin [.succ 4 none] 0 0 .none 0 r w)) == .other
+-- … and a shown byte string `.hex []`, which is printed `-` like `.none`.  `C07.exec_shown_canonical`: `shownOf`,
+-- which makes every shown byte string of every output, never gives it.
+#guard Netbufmon.parseAns (l1toks (.peek 0 (.hex []) r)) == .peek 0 .none
 -- the model's own lines on a run
 #guard ((runOps {} [.netDeliver [1, 2, 3, 4, 5], .netEof, .rLoop 2 2 3, .wWrite [7, 8, 9], .netAccept 2, .netSendfail,
     .spin, .rPeek, .rConsumeUpto 9, .wReserve 4, .spin, .wConsume [1]]).2).all agrees
+#guard ((runOps {} [.netDeliver [1, 2, 3, 4, 5], .netEof, .rLoop 2 2 3, .wWrite [7, 8, 9], .netAccept 2, .netSendfail,
+    .spin, .rPeek, .rConsumeUpto 9, .wReserve 4, .spin, .wConsume [1]]).2).all
+  fun o => cutAgrees o && Proofs.NetbufAns.loopCutOk o
 
 end Percival.KAT.NetbufAns
